@@ -614,7 +614,7 @@ def k_chain(base, chk, which):
     chk.add(Ob("%s: exponent of the addition chain = %s for every input exponent" % (which, {"Invert": "p-2", "Pow22523": "2^252-3 = (p-5)/8"}[which]),
                r, time.time() - t0, [fname], "chain", detail="%d Square + %d Multiply calls executed" % (stats["sq"], stats["mul"])))
     ret = p.outcome[1][0]
-    chk.add(Ob("%s: returns the receiver" % which, "unsat" if ret == v else "sat", 0, [fname], "structure"))
+    chk.fact("%s: returns the receiver" % which, ret == v, [fname])
     if r == "sat":
         # replay: compare natively with pow()
         from . import native, ref
@@ -787,24 +787,26 @@ def reduce_summary(k):
 
 def k_bytes(base, chk):
     """serialisation loop of Element.bytes on top of the reduce contract"""
-    fname = base.prog.find("Element).bytes")
+    fname = base.prog.find("Element).Bytes")
     k = BVK(base, chk, fname)
+    chk.used(base.prog, base.prog.find("Element).bytes"), "BV")
+    chk.used(base.prog, "(encoding/binary.littleEndian).PutUint64", "BV (standard library SSA)")
     k.ex.summaries[base.prog.find("Element).reduce")] = reduce_summary(k)
     v, vl = k.elem("v")
-    ooid, obs = k.bytes_obj("out", 32)
-    # Bytes() passes a zeroed array; model that (the OR-accumulation relies on it)
-    k.path.heap[ooid][0] = [0] * 32
-    paths = k.run([v, X.Ptr(ooid)])
+    paths = k.run([v])
     ok = [p for p in paths if p.outcome[0] == "ret"]
     chk.add(Ob("bytes: single non-panicking path", "unsat" if len(paths) == 1 and len(ok) == 1 else "sat", 0, [fname], "structure"))
     p = ok[0]
     red = p.dstate["reduced"][0][1]
+    sl = p.outcome[1][0]
+    ooid = sl.obj
     out = p.heap[ooid][0]
+    k.prove(p, "reduce() is applied to a copy holding the receiver's limbs", tuple(map(str, p.dstate["reduced"][0][0])) == tuple(map(str, vl)))
+    k.prove(p, "result buffer is allocated by this call", k.ex.meta[ooid].kind in ("heap", "stack") and ooid > v.obj)
     k.prove(p, "32 output bytes = little-endian value of the reduced limbs", cat_bytes(out) == limbs_val(red, 256))
     k.prove(p, "bit 255 of the encoding is clear", z3.Extract(7, 7, out[31] if type(out[31]) is not int else z3.BitVecVal(out[31], 8)) == 0)
     k.prove(p, "receiver element not written (works on a copy)", not any(w[0] == "w" and w[1] == v.obj for w in p.log))
-    sl = p.outcome[1][0]
-    k.prove(p, "returns out[:] (len 32)", isinstance(sl, X.SliceV) and sl.obj == ooid and sl.len == 32 and sl.off == 0)
+    k.prove(p, "returns out[:] (len 32)", isinstance(sl, X.SliceV) and sl.len == 32 and sl.off == 0)
 
     def replay(models, seed):
         from . import native, ref
@@ -974,7 +976,7 @@ def k_setwide(base, chk):
     k.goal(p, "congr", "value = 512-bit little-endian input mod p", fval(out), bval(bs), P)
     out_bounds(k, p, out)
     ret = p.outcome[1]
-    chk.add(Ob("SetWideBytes: returns (receiver, nil); input not written", "unsat" if ret[0] == v and ret[1] is None and not any(w[0] == "w" and w[1] == oid for w in p.log) else "sat", 0, [fname], "structure"))
+    chk.fact("SetWideBytes: returns (receiver, nil); input not written", ret[0] == v and ret[1] is None and not any(w[0] == "w" and w[1] == oid for w in p.log), [fname])
 
     def replay(models, seed):
         from . import native, ref
@@ -1015,3 +1017,63 @@ def k_wrappers(base, chk):
         ok = p.outcome[0] == "ret" and p.outcome[1][0] == ptrs[0] and seen == [ptrs] and not any(w[0] == "w" for w in p.log)
         chk.used(base.prog, fname, "structure")
         chk.add(Ob("%s: calls %s(v, args...) exactly once, returns the receiver, no other effect" % (meth, callee), "unsat" if ok else "sat", 0, [fname], "structure"))
+
+
+def k_len_reject(base, chk, fname, good_len, recv_type, label):
+    """every length other than good_len (one symbolic length): (nil, error), receiver and input untouched, no panic"""
+    k = BVK(base, chk, fname, label=label)
+    n = k.bv("len", 64)
+    k.path.pc.append(n >= 0)
+    k.path.pc.append(n != good_len)
+    k.path.pc.append(n <= 1 << 40)
+    boid = k.ex.new_obj(k.path, ("array", 0, base.prog.T("uint8")), name="x(backing array of symbolic length)", init=[])
+    sl = X.SliceV(boid, (), 0, n, n)
+    roid = k.ex.new_obj(k.path, recv_type, name="receiver")
+    # arbitrary prior receiver contents: fill leaves with fresh symbols
+    cnt = [0]
+
+    def havoc(c):
+        if type(c) is list:
+            return [havoc(x) for x in c]
+        if type(c) is int:
+            cnt[0] += 1
+            return z3.BitVec("recv%d" % cnt[0], 64)
+        return c
+    k.path.heap[roid] = [havoc(k.path.heap[roid][0])]
+    paths = k.run([X.Ptr(roid), sl])
+    good = True
+    why = ""
+    for p in paths:
+        if p.outcome[0] != "ret":
+            good, why = False, "outcome %s" % (p.outcome,)
+            break
+        r = p.outcome[1]
+        if r[0] is not None or r[1] is None:
+            good, why = False, "returned (%r, %r)" % (r[0], r[1])
+            break
+        if any(w[0] == "w" and w[1] in (roid, boid) for w in p.log):
+            good, why = False, "receiver or input written on the error path"
+            break
+    ob = Ob("%s: any length != %d -> (nil, error), receiver and input unwritten, no panic (%d path(s), length symbolic)" % (label, good_len, len(paths)),
+            "unsat" if good else "sat", k.dom.qtime, [fname], "BV (symbolic slice length, path feasibility by z3)", detail=why)
+    chk.add(ob)
+    if not good:
+        k.sat_obs.append(ob)
+
+    def replay(models, seed):
+        from . import native
+        pkg = "field" if "field" in fname else ""
+        op = label if pkg == "field" else {"Scalar": "S.", "Point": "P."}[label.split(".")[0]] + label.split(".")[1]
+        lens = [0, 1, good_len - 1, good_len + 1, 2 * good_len, 31, 33, 63, 65, 16]
+        lens = [l for l in lens if l != good_len and l >= 0]
+        init_recv = {"field": "7,7,7,7,7", "S.": "w:7,7,7,7", "P.": "pt:1,2,3,4,5;1,2,3,4,5;1,2,3,4,5;1,2,3,4,5"}["field" if pkg == "field" else op[:2]]
+        ops = [{"op": op if pkg else op, "args": ["v", "x"], "init": {"v": init_recv, "x": "hex:" + "ab" * l}} for l in lens]
+        if pkg == "field":
+            for o in ops:
+                o["op"] = label.split(".")[-1]
+        res = native.run_ops(pkg, ops)
+        for l, r in zip(lens, res):
+            if "panic" in r or not r.get("err") or not r.get("retnil") or r["slots"]["v"] != init_recv or r["slots"]["x"] != "hex:" + "ab" * l:
+                return dict(what="%s with %d bytes: %s" % (label, l, r), op=op, inputs=dict(len=l))
+        return None
+    k.settle(replay)
